@@ -190,7 +190,7 @@ TraceParse ==
          out == Ev.out
          ref == RefDecode(b) IN
      /\ Rule(l, "NoPanic", out[1] # "panic", <<"Packet::parse", out>>)
-     /\ Rule(l, "NoHang", Ev.steps <= StepBound(Len(b)), <<"steps", Ev.steps, "len", Len(b)>>)
+     /\ Rule(l, "NoHang", out[1] # "hang" /\ Ev.steps <= StepBound(Len(b)), <<"steps", Ev.steps, "len", Len(b), out[1]>>)
      /\ Rule(l, "HeapBound", Ev.peak <= HeapBoundOf(Len(b)), <<"peak", Ev.peak, "len", Len(b)>>)
      /\ Rule(l, "EnvelopeErr", (~ref.ok) => out[1] = "err", <<"ref", ref.why, "got", out[1]>>)
      /\ Rule(l, "ParseEqRef", out[1] = "ok" => (ref.ok /\ out[2] = ref.pkt),
@@ -225,6 +225,25 @@ TraceRoundTrip ==
      /\ Rule(l, "CompRoundTrip", compOk => (Ev.pc[1] = "ok" /\ Ev.pc[2] = p),
              <<"comp", Ev.pc[1], IF Ev.pc[1] = "ok" THEN PktDiff(Ev.pc[2], p) ELSE "-">>)
 
+(* Peek: the eight header_buffer functions on buffer e.b;                      *)
+(* e.r[i] = <<"ok", v>> | <<"err">> | <<"panic", where>> for id, questions,    *)
+(* answers, name_servers, additional_records, flags (mask), rcode, opcode      *)
+PeekNeed == <<2, 6, 8, 10, 12, 4, 4, 4>>
+PeekExpected(b, i) ==
+  CASE i = 1 -> U16At(b, 1) [] i = 2 -> U16At(b, 5) [] i = 3 -> U16At(b, 7) [] i = 4 -> U16At(b, 9)
+    [] i = 5 -> U16At(b, 11) [] i = 6 -> MaskOf(HdrFlagSet(U16At(b, 3)))
+    [] i = 7 -> Obs(HdrRcode(U16At(b, 3)), NamedRcodes4) [] i = 8 -> Obs(HdrOpcode(U16At(b, 3)), NamedOpcodes)
+
+TracePeek ==
+  /\ Ev.ev = "Peek"
+  /\ Len(Ev.r) = 8
+  /\ \A i \in 1 .. 8 :
+       /\ Rule(l, "NoPanic", Ev.r[i][1] # "panic", <<"peek", i, "len", Len(Ev.b), Ev.r[i]>>)
+       /\ Rule(l, "PeekTotal",
+               /\ Ev.r[i][1] = "ok" => (Len(Ev.b) >= PeekNeed[i] /\ Ev.r[i][2] = PeekExpected(Ev.b, i))
+               /\ Len(Ev.b) >= 12 => Ev.r[i][1] = "ok",
+               <<"peek", i, "len", Len(Ev.b), Ev.r[i]>>)
+
 (* Reparse (C11): bytes e.b accepted by the parser (e.p1), re-serialised plain  *)
 (* (e.b2) and compressed (e.b3), each parsed again (e.p2, e.p3)                 *)
 TraceReparse ==
@@ -246,7 +265,7 @@ Next == /\ l <= Len(Rec)
            \/ TraceFlagOps
            \/ TraceNameDecode
            \/ TraceNameNew \/ TraceLabelNew \/ TraceNameRel
-           \/ TraceParse \/ TraceRoundTrip \/ TraceReparse
+           \/ TraceParse \/ TracePeek \/ TraceRoundTrip \/ TraceReparse
            \/ TraceCodeConv \/ TraceMnemonics \/ TraceMatchType \/ TraceMatchClass
 
 Spec == Init /\ [][Next]_vars
